@@ -61,7 +61,7 @@ var props = []*core.Property{
 		technique:  "finite-domain tabulation of the slicing decision; write-through-parameter summaries over the call graph with an external contract table; pool typestate by dominance; store inventory",
 		expl:       "decides purity of detection as a function of (first `limit` bytes, limit, registered formats) and immutability of the caller's buffer",
 		notCovered: []string{"read-only behaviour of std callees is taken from the contract table"},
-		rules:      []*core.Rule{ruleLimitSlice, ruleInputImmutable, ruleContracts, rulePools, rulePkgState, ruleSnapshot, ruleReader}}),
+		rules:      []*core.Rule{ruleLimitSlice, ruleInputImmutable, ruleContracts, rulePools, rulePkgState, ruleSnapshot, ruleReader, ruleBounds}}),
 	mk(pd{id: "C05", level: "other",
 		levelText:  "Sibling agreement and reader confinement: both entries take one limit snapshot and hand (buffer, that limit) to the same walk under the read lock; the reader is used only by io.ReadFull into make([]byte, limit) / io.ReadAll iff limit == 0; the walk sees buf[:n]; every path from a read to a success return tests the error, only ReadFull's may be excused and only by io.EOF / io.ErrUnexpectedEOF; the file entry forwards to the reader entry.",
 		technique:  "use-site confinement of the reader parameter; path-sensitive typestate of the error value over the CFG; transitive snapshot counting",
